@@ -56,7 +56,15 @@ class PDialect(Dialect):
     }
 
 
+# option mappings kept by the caller and passed again and again (a module constant in user code); None: a fresh
+# mapping for every call
+SHARED: dict[tuple[str, ...], dict[str, Any]] | None = None
+
+
 def mk_options(opts: list[str]) -> tuple[dict[str, Any] | None, Any]:
+    key = tuple(sorted(o for o in opts if o != "dialect"))
+    if SHARED is not None and key in SHARED:
+        return SHARED[key], (PDialect if "dialect" in opts else None)
     d: dict[str, Any] = {}
     if "skip" in opts:
         d[SerializationOption.SKIP_CLASS] = True
@@ -68,6 +76,8 @@ def mk_options(opts: list[str]) -> tuple[dict[str, Any] | None, Any]:
         d[AST_SERIALIZE_DIALECT_KEY] = ASTSerializationDialects.AST_TEST
     if "idx" in opts:
         d[SOURCE_OPTIMIZED_SERIALIZATION_KEY] = True
+    if SHARED is not None and d:
+        SHARED[key] = d
     return (d or None), (PDialect if "dialect" in opts else None)
 
 
@@ -346,6 +356,8 @@ class World:
         pcfg.ID_DIGEST_SIZE = cfg.get("digest", 8)
         pcfg.RUNTIME_TYPE_CHECK = False
         FAULTS.disarm()
+        global SHARED
+        SHARED = {} if cfg.get("shared_opts") else None
         if len(NODE_REGISTRY) != 0:
             raise HarnessError("registry not pristine")
         self.builder = RW.World({"digest": cfg.get("digest", 8), "rtc": False, "gc": "exact"}, "none")
@@ -683,6 +695,7 @@ def make_config(rseed: int, prop: str, tier: str, faults: bool) -> dict[str, Any
         "p_opt": r.choice([0.2, 0.35, 0.5, 0.7]),
         "fault_budget": 64 if tier == "thorough" else r.choice([12, 24, 64]),
         "threads": r.random() < 0.3,
+        "shared_opts": r.random() < 0.5,
         "build": {
             "maxd": r.choice([2, 3]),
             "maxw": r.choice([2, 3, 4]),
